@@ -183,11 +183,11 @@ def expected(m, inst, name, parent_ns):
                         items.append(["e", ens, local, [[S.XSI, "nil", "true"]], []])
                     continue
                 if isinstance(f["type"], dict):
-                    node = expected(f["type"], x, (ens, local), name[0])
-                    has_text = any(g["kind"] == "text" and x[g["name"]] is not None for g in f["type"]["fields"])
-                    if f["nillable"] and not node[4] and not has_text:
-                        node[3].append([S.XSI, "nil", "true"])   # an object without content under a nillable field
-                    items.append(node)
+                    # a class without Meta.namespace inherits the namespace of the enclosing instance's class
+                    # (repair c01g-01: the serializer hands meta.namespace down like the parser; before: the
+                    # namespace of the enclosing element name, name[0]); an object under a nillable field is
+                    # not xsi:nil because of the field (repair c01g-03)
+                    items.append(expected(f["type"], x, (ens, local), cns))
                 else:
                     items.append(["e", ens, local, [], [["t", x]] if x else []])
             if f["wrapper"]:
